@@ -215,8 +215,8 @@ func ruleSendDump(c *Check, rule, ruleTime, ruleOrder string) {
 	if bad == 0 {
 		c.Ok(rule, fnSendTxn+"/dump-complete", fmt.Sprintf("%d continuing iterations over ReadDBINames(txn): %d skip a \"_sync\"-prefixed name, %d call readDBI(txn, name or shadow name, name, false) and append the result to msg.Databases; a readDBI error aborts", nIter, nSkip, nRead), pos)
 	}
-	c.Floor(rule, nRead, 2, "dumping iterations in SendOnce$1")
-	c.Floor(rule, nSkip, 1, "private-prefix skips in SendOnce$1")
+	c.Floor(rule, nRead, 2, "dumping iterations in SendOnce body")
+	c.Floor(rule, nSkip, 1, "private-prefix skips in SendOnce body")
 	if badOrder == 0 {
 		c.Ok(ruleOrder, fnSendTxn+"/capture-before-dump", fmt.Sprintf("%d paths reaching the DBI listing: mainToShadow(ctx, txn, ts) ran before it exactly in shadow mode", nOrder), pos)
 	}
